@@ -49,8 +49,15 @@ def same(a, b, path="obj", seen=None, strict_order=True):
                 if d:
                     return d
             return None
-        if a.dtype.kind == "V" or a.dtype.names:
-            return None if a.tobytes() == b.tobytes() else f"{path}: structured array bytes differ"
+        if a.dtype.names:
+            # field by field: padding bytes of structured dtypes are not part of the value
+            for nm in a.dtype.names:
+                d = same(np.ascontiguousarray(a[nm]), np.ascontiguousarray(b[nm]), f"{path}[{nm!r}]", seen)
+                if d:
+                    return d
+            return None
+        if a.dtype.kind == "V":
+            return None if a.tobytes() == b.tobytes() else f"{path}: void array bytes differ"
         if a.tobytes() == b.tobytes():
             return None
         try:
